@@ -329,6 +329,12 @@ def kill_run(cfg, kills):
                         lo, hi = leg["s0"] + (clk.t - leg.get("t_loop", leg["t_start"])), leg["s0"] + (clk.t - leg["t_start"])
                     else:
                         lo = hi = leg["ck_prev"][0] + (clk.t - leg["ck_prev"][1])
+                    hist_t = list((fs.ns.history or {}).get("sampling_time", []))
+                    if hist_t:
+                        if any(b < a for a, b in zip(hist_t, hist_t[1:])):
+                            errs.append(("history-sampling-time-not-monotone", f"{hist_t[:40]}"))
+                        if max(hist_t) > st or max(hist_t) >= vclock.DOWNTIME:
+                            errs.append(("history-sampling-time-exceeds-the-total-or-includes-down-time", f"max {max(hist_t)} s vs total {st} s ({legs} legs)"))
                     if not (lo <= st <= hi):
                         errs.append(("sampling-time-at-end", f"{st} s vs {lo}..{hi} s expected (carried {leg['s0']} s, {legs} legs; down time between legs {vclock.DOWNTIME} s)"))
                     break
